@@ -768,6 +768,66 @@ Proof.
   intro H; vm_compute in H; discriminate H.
 Qed.
 
+(** * (B'') the EXECUTED dry whole-state model refines the specification at the modal layer: [C05_primeq_refines_spec] for
+    explicit_terms_full + implicit_terms_full of the state (s0 with temperature variation temp1) under the reference profile T1,
+    every in-range coefficient.  X = the ideal nodal columns of the state, T / Tm = absolute temperature (nodal / modal).
+    Linearity and lap_const are discharged; remaining named exactness hypotheses are those of C04_whole_state_split_invariance:
+    H_one, H_div_grad, H_curl_grad (table obligations of C04, satisfiable: C04_whole_state_hyps_satisfiable), and b_0 = 0. *)
+Section C05_whole_refine.
+  Context {F : Type} {o : Ops F} {Fc : FieldC o}.
+  Variable g : @HGrid F.
+  Variable c : @PEcfg F.
+  Hypothesis b_top : cb c 0%nat = 0.
+  Variable grav : F.
+  Variable orog : nat -> nat -> F.
+  Variable s0 : @State F.
+  Variable temp1 : nat -> nat -> nat -> F.
+  Variable T1 : nat -> F.
+  Variable v00 : F.
+  Hypothesis H_one : forall i j, (i < hI g)%nat -> (j < hJ g)%nat -> to_nodal g (cur (onem00 v00)) i j = 1.
+  Notation X := (X_ideal g (cK c) s0).
+  Notation T := (T_abs g c temp1 T1 v00).
+  Notation Tm := (Tm_abs temp1 T1 v00).
+  Hypothesis H_div_grad : forall w,
+      clip_c g (divc_c g (toM_c g (fun p => n_gx (X p) * n_sec2 (X p))) (toM_c g (fun p => n_gy (X p) * n_sec2 (X p)))) w
+      = lap_c g (unc (s_lnps s0)) w.
+  Hypothesis H_curl_grad : forall w,
+      clip_c g (curlc_c g (toM_c g (fun p => n_gx (X p) * n_sec2 (X p))) (toM_c g (fun p => n_gy (X p) * n_sec2 (X p)))) w = 0.
+
+  Theorem C05_whole_state_refines_spec k a l :
+    (k < cK c)%nat -> (a < hR g)%nat -> (l < hL g)%nat ->
+    let E := explicit_terms_full g (with_tref c T1) grav orog (with_stemp s0 temp1) in
+    let I := implicit_terms_full g (with_tref c T1) (with_stemp s0 temp1) in
+    s_vort E k a l + s_vort I k a l
+    = clip_c g (fun w' => - curlc_c g (toM_c g (fun p => spec_P Wi c X (rt_abs Wi c T) p k))
+                                      (toM_c g (fun p => spec_Q Wi c X (rt_abs Wi c T) p k)) w') (a, l) /\
+    s_div E k a l + s_div I k a l
+    = clip_c g (fun w' => - divc_c g (toM_c g (fun p => spec_P Wi c X (rt_abs Wi c T) p k))
+                                     (toM_c g (fun p => spec_Q Wi c X (rt_abs Wi c T) p k)) w'
+                          - lap_c g (fun w2 => toM_c g (fun p => kinetic (X p) k) w2 + grav * unc orog w2) w') (a, l)
+      - lap_c g (fun w' => geo_diff false c (fun k' => Tm k' w') k) (a, l).
+  Proof. exact (whole_state_refines_spec g c b_top grav orog s0 temp1 T1 v00 H_one H_div_grad H_curl_grad k a l). Qed.
+
+  (** PARTIAL (solid-body rotation, any gradient-wind balanced state).  Full statement wanted: the executed model has zero total
+      tendency on the solid-body state of [C05_solid_body_steady].  Proved: if the clipped modal operators on the analysed
+      specification quantities vanish at the coefficient (H_sb_vort, H_sb_div: what [C05_solid_body_steady] says of the continuous
+      operators on the continuous fields) the executed total vorticity and divergence tendencies vanish there.  Missing:
+      alias-freeness of the transforms on the products of the balanced state, the evaluation homomorphism from the differential ring
+      to nodal values, and whole-state statements for temperature / lnps (column refinement + the solid-body oracle of the plugin). *)
+  Theorem C05_whole_state_solid_body_steady_partial k a l :
+    (k < cK c)%nat -> (a < hR g)%nat -> (l < hL g)%nat ->
+    clip_c g (fun w' => - curlc_c g (toM_c g (fun p => spec_P Wi c X (rt_abs Wi c T) p k))
+                                    (toM_c g (fun p => spec_Q Wi c X (rt_abs Wi c T) p k)) w') (a, l) = 0 ->
+    clip_c g (fun w' => - divc_c g (toM_c g (fun p => spec_P Wi c X (rt_abs Wi c T) p k))
+                                   (toM_c g (fun p => spec_Q Wi c X (rt_abs Wi c T) p k)) w'
+                        - lap_c g (fun w2 => toM_c g (fun p => kinetic (X p) k) w2 + grav * unc orog w2) w') (a, l)
+    - lap_c g (fun w' => geo_diff false c (fun k' => Tm k' w') k) (a, l) = 0 ->
+    let E := explicit_terms_full g (with_tref c T1) grav orog (with_stemp s0 temp1) in
+    let I := implicit_terms_full g (with_tref c T1) (with_stemp s0 temp1) in
+    s_vort E k a l + s_vort I k a l = 0 /\ s_div E k a l + s_div I k a l = 0.
+  Proof. exact (whole_state_solid_body_steady_partial g c b_top grav orog s0 temp1 T1 v00 H_one H_div_grad H_curl_grad k a l). Qed.
+End C05_whole_refine.
+
 (** * (D) shallow water on the MODEL of shallow_water.py: explicit_terms (the assembly [Section SWAssembly] of Model/ShallowWater.v
     that [sw_explicit_terms] instantiates at the concrete operators) + implicit_terms (Model/Implicit.v [sw_implicit_terms]) are the
     clipped modal div / curl / laplacian of the analysed specification quantities of Model/PrimEqSpec.v (absolute-vorticity flux,
@@ -947,3 +1007,5 @@ Print Assumptions C05_sw_concrete_refines_spec.
 Print Assumptions C05_sw_concrete_hyps_satisfiable.
 Print Assumptions C05_whole_state_rest_isothermal_steady_moist.
 Print Assumptions C05_whole_state_rest_moist_hyps_satisfiable.
+Print Assumptions C05_whole_state_refines_spec.
+Print Assumptions C05_whole_state_solid_body_steady_partial.
